@@ -73,48 +73,67 @@ def _model_text(s):
         return ["<model unavailable: %s>" % e]
 
 
+def _z3_attempt(smt2, timeout_ms, opts):
+    ctx = z3.Context()
+    s = z3.Solver(ctx=ctx)
+    s.set("timeout", timeout_ms)
+    for k, v in opts.items():
+        s.set(k, v)
+    s.from_string(smt2)
+    r = s.check()
+    if r == z3.unsat:
+        return "unsat", None, None
+    if r == z3.sat:
+        return "sat", _model_text(s), None
+    return "unknown", None, s.reason_unknown()
+
+
+# portfolio: quick attempts with different configurations first (a proof that
+# exists is normally found in milliseconds; a run-away search is restarted
+# under another configuration instead of being waited for), long attempts last
+PORTFOLIO = [
+    ("z3", 3000, {}),
+    ("z3-nombqi", 3000, {"smt.mbqi": False}),
+    ("z3-seed7", 6000, {"smt.random_seed": 7}),
+    ("cvc5", 15, None),
+    ("z3-seed23-nombqi", 20000, {"smt.random_seed": 23, "smt.mbqi": False}),
+    ("z3", 60000, {}),
+    ("cvc5", CVC5_TIMEOUT_S, None),
+]
+if os.environ.get("VERIF_TIER") == "thorough":
+    PORTFOLIO = PORTFOLIO + [("z3-seed99", 180000, {"smt.random_seed": 99})]
+
+
 def discharge(ob):
     """ob: dict from generate().  Returns dict(status, backend, seconds, model)"""
     if ob["trivial"]:
         return {"status": "discharged", "backend": "simplifier", "seconds": 0.0, "model": None}
     t0 = time.time()
-    res = {"status": "unknown", "backend": "z3", "model": None}
-    try:
-        s = z3.Solver()
-        s.set("timeout", Z3_TIMEOUT_MS)
-        s.set("rlimit", Z3_RLIMIT)
-        s.from_string(ob["smt2"])
-        r = s.check()
-        if r == z3.unsat:
-            res.update(status="discharged", backend="z3")
-        elif r == z3.sat:
-            res.update(status="sat", backend="z3", model=_model_text(s))
-        else:
-            res["reason"] = s.reason_unknown()
-    except z3.Z3Exception as e:
-        res["reason"] = "z3 exception: %s" % e
-    if res["status"] == "unknown":
-        r2 = run_cvc5(ob["smt2"])
-        if r2 == "unsat":
-            res.update(status="discharged", backend="cvc5")
-        elif r2 == "sat":
-            res.update(status="sat", backend="cvc5")
-        else:
-            # second z3 attempt with a different arithmetic/quantifier configuration
-            try:
-                s = z3.Solver()
-                s.set("timeout", Z3_TIMEOUT_MS // 2)
-                s.set("smt.mbqi", False)
-                s.from_string(ob["smt2"])
-                if s.check() == z3.unsat:
-                    res.update(status="discharged", backend="z3-nombqi")
-            except z3.Z3Exception:
-                pass
+    res = {"status": "unknown", "backend": "-", "model": None, "attempts": []}
+    for name, budget, opts in PORTFOLIO:
+        try:
+            if opts is None:
+                r = run_cvc5(ob["smt2"], budget)
+                model = reason = None
+            else:
+                r, model, reason = _z3_attempt(ob["smt2"], budget, opts)
+        except z3.Z3Exception as e:
+            r, model, reason = "unknown", None, "z3 exception: %s" % e
+        res["attempts"].append("%s:%s" % (name, r))
+        if r == "unsat":
+            res.update(status="discharged", backend=name)
+            break
+        if r == "sat":
+            res.update(status="sat", backend=name, model=model)
+            break
+        if reason:
+            res["reason"] = reason
     res["seconds"] = round(time.time() - t0, 4)
     return res
 
 
-def run_cvc5(smt2):
+def run_cvc5(smt2, budget_s=None):
+    budget_s = budget_s or CVC5_TIMEOUT_S
     exe = "/usr/bin/cvc5"
     if not os.path.exists(exe):
         return "unavailable"
@@ -122,8 +141,8 @@ def run_cvc5(smt2):
         f.write("(set-logic ALL)\n" + smt2)
         path = f.name
     try:
-        p = subprocess.run([exe, "--tlimit=%d" % (CVC5_TIMEOUT_S * 1000), "--arrays-exp", path],
-                           stdout=subprocess.PIPE, stderr=subprocess.PIPE, text=True, timeout=CVC5_TIMEOUT_S + 10)
+        p = subprocess.run([exe, "--tlimit=%d" % (budget_s * 1000), "--arrays-exp", path],
+                           stdout=subprocess.PIPE, stderr=subprocess.PIPE, text=True, timeout=budget_s + 10)
         out = p.stdout.strip().splitlines()
         return out[0] if out else "unknown"
     except Exception:
